@@ -70,6 +70,13 @@ def gen_cases(tier, seed):
             rho = 0.0           # exactly vertically aligned endpoints
         a = [float(rng.uniform(-1e3, 1e3)), float(rng.uniform(-1e3, 1e3)), float(rng.uniform(zlo + 1, -1))]
         b = [a[0] + rho * np.cos(ph), a[1] + rho * np.sin(ph), float(rng.uniform(zlo + 1, -1))]
+        if kind == "uniform" and rng.random() < 0.3 and zlo < -20:
+            # the same kind of points given as whole numbers in Python ints / int arrays
+            a = [int(round(a[0])), int(round(a[1])), int(min(-1, max(np.ceil(zlo) + 1, round(a[2]))))]
+            b = [int(round(b[0])), int(round(b[1])), int(min(-1, max(np.ceil(zlo) + 1, round(b[2]))))]
+            if a == b:
+                b[0] += 7
+            c["endpoint_type"] = ["list of int", "tuple of int", "int ndarray"][int(rng.integers(0, 3))]
         c.update({"from": a, "to": b})
         out.append(c)
     return out
@@ -84,9 +91,11 @@ def run_uniform(case, v):
     UT = type("UT", (rt.UniformRayTracer,), {"max_reflections": Rm})
     a, b = np.array(case["from"], float), np.array(case["to"], float)
     rho = float(np.hypot(*(b - a)[:2]))
-    tr = UT(a, b, ice)
+    et = case.get("endpoint_type")
+    rep = {"list of int": list, "tuple of int": tuple, "int ndarray": lambda x: np.array(x, dtype=int)}.get(et)
+    tr = UT(rep(case["from"]), rep(case["to"]), ice) if rep else UT(a, b, ice)
     sols = list(tr.solutions)
-    geo = {"from": a.tolist(), "to": b.tolist(), "n": n, "range": [zlo, 0.0], "max_reflections": Rm}
+    geo = {"from": a.tolist(), "to": b.tolist(), "n": n, "range": [zlo, 0.0], "max_reflections": Rm, "endpoint_type": et or "float ndarray"}
     v.check(bool(tr.exists) == (len(sols) > 0), "exists <=> the solution list is non-empty", **geo)
     v.check(len(sols) == 2 * Rm + 1, "one direct path and two paths per allowed number of reflections", n_solutions=len(sols), **geo)
     H = -zlo
